@@ -11,7 +11,8 @@
     simple_eq_generic_spellings_partial simple_eq_generic_spellings_pattern simple_eq_generic_attr
     simple_eq_generic interior_attribute_not_simple true_pred_default_choice_full
     self_prefix_default_choice_pattern supports_probe_systematic self_prefix_irrelevant_pattern
-    true_pred_irrelevant_pattern self_prefix_pattern_default
+    true_pred_irrelevant_pattern self_prefix_pattern_default self_prefix_irrelevant_attr
+    self_prefix_default_choice_full
 -/
 import Genshi.Model.Path
 import Genshi.Model.PathParse
@@ -1295,5 +1296,115 @@ theorem self_prefix_pattern_default (p : LocPath) (hne : p ≠ [])
       have hd2 : pathTest [p] true = pathTest [p] true (some .generic) := by
         simp only [pathTest, List.map_cons, List.map_nil, hc, Option.getD_some]
       rw [hd2]
+
+/-! ## `./q/@a` and `q/@a` in relative mode -/
+
+theorem stepsOk_dot (ns : NsMap) (vs : Vars) (p : LocPath) (hp : StepsOk ns vs p) : StepsOk ns vs (dot :: p) := by
+  refine ⟨by simp, ?_, ?_, ?_, ?_⟩
+  · intro s hs
+    rcases List.mem_cons.mp hs with h | h
+    · subst h; simp [dot]
+    · exact hp.na s h
+  · intro s hs
+    rcases List.mem_cons.mp hs with h | h
+    · subst h; simp [dot, NodeTest.elemWf]
+    · exact hp.wf s h
+  · intro s hs
+    rcases List.mem_cons.mp hs with h | h
+    · subst h; simp [dot]
+    · exact hp.typed s h
+  · intro s hs
+    rcases List.mem_cons.mp hs with h | h
+    · subst h; simp [dot]
+    · exact hp.nonpos s h
+
+theorem nodeFor_dot (ns : NsMap) (vs : Vars) (p : LocPath) (n : Node) (h : NodeFor p ns vs n) :
+    NodeFor (dot :: p) ns vs n := by
+  obtain ⟨h1, h2, h3, h4⟩ := h
+  refine ⟨h1, h2, h3, ?_⟩
+  intro s hs
+  rcases List.mem_cons.mp hs with h | h
+  · subst h; intro q hq; simp [dot] at hq
+  · exact h4 s h
+
+/-- GenericStrategy on `q/@a` in relative mode, `q` without position tests: the attribute
+    selection at the nodes `q` reaches from the root -/
+theorem generic_attr_trace (q : LocPath) (a : Step) (ha : a.axis = .attribute) (ns : NsMap) (vs : Vars)
+    (hq : StepsOk ns vs q) (tag : QName) (attrs : AttrList) (kids : List Node)
+    (hcl : (Node.elem tag attrs kids).clean = true)
+    (hn : AllNodes (NodeFor q ns vs) (.elem tag attrs kids)) :
+    (runOne (gStep (gSteps (q ++ [a]) false) ns vs) gInit (Node.elem tag attrs kids).flatten).1
+      = List.zipWith (fun e v => gate (a.test.apply e ns) v) (Node.elem tag attrs kids).flatten
+          (markVals (fun x => Ref.reach ns (toXVars vs) q ⟨[], .elem tag attrs kids⟩ ⟨x, .elem tag attrs kids⟩)
+            (eventLocs (.elem tag attrs kids) [])) := by
+  rw [gSteps_snoc_attr q a ha,
+    attr_run ns vs (attrBase q) a (stepsOk_attrBase ns vs q (Or.inr hq)) ha _ hcl
+      (AllNodes.imp (fun n h => nodeFor_attrBase ns vs q n h) _ hn)]
+  congr 1
+  apply markVals_congr
+  intro x
+  rw [RR_attrBase ns vs q (Or.inr hq)]
+
+open Genshi.Path.Ref in
+/-- **`./q/@a` ≡ `q/@a`** in relative mode under GenericStrategy, `q` any non-empty path
+    without position tests (any axes, tests, predicates), `a` any attribute step, both caller
+    behaviours, every element tree — the companion of `self_prefix_irrelevant_nonpositional`
+    for paths that end in an attribute step. -/
+theorem self_prefix_irrelevant_attr (q : LocPath) (a : Step) (ha : a.axis = .attribute) (ns : NsMap) (vs : Vars)
+    (hq : StepsOk ns vs q) (tag : QName) (attrs : AttrList) (kids : List Node)
+    (hcl : (Node.elem tag attrs kids).clean = true)
+    (hn : AllNodes (NodeFor q ns vs) (.elem tag attrs kids)) (skip : Bool) :
+    traceCaller (pathTest [dot :: (q ++ [a])] false (some .generic)).1 ns vs skip
+        (pathTest [dot :: (q ++ [a])] false (some .generic)).2 (Node.elem tag attrs kids).flatten
+      = traceCaller (pathTest [q ++ [a]] false (some .generic)).1 ns vs skip
+        (pathTest [q ++ [a]] false (some .generic)).2 (Node.elem tag attrs kids).flatten := by
+  have e1 := generic_attr_trace (dot :: q) a ha ns vs (stepsOk_dot ns vs q hq) tag attrs kids hcl
+    (AllNodes.imp (fun n h => nodeFor_dot ns vs q n h) _ hn)
+  have e2 := generic_attr_trace q a ha ns vs hq tag attrs kids hcl hn
+  simp only [traceCaller, pathTest, List.map_cons, List.map_nil, mkMatcher]
+  rw [runTest_generic, runTest_generic]
+  rw [show dot :: (q ++ [a]) = (dot :: q) ++ [a] from rfl, e1, e2]
+  congr 2
+  apply markVals_congr
+  intro x
+  rw [reach_self ns (toXVars vs) dot q (by intro p hp; simp [dot] at hp) rfl]
+  simp [hitR, dot, Ref.testNode]
+
+/-- **`./p` and `p` with the strategies `Path.__init__` picks — both modes, every supported
+    path** (two or more steps; a final attribute step included): `./p` goes to GenericStrategy,
+    `p` to SimplePathStrategy, same result at every event. -/
+theorem self_prefix_default_choice_full (p : LocPath) (hsup : simpleSupports p = true)
+    (hpt : ∀ s ∈ p, s.axis ≠ .attribute → s.test.attrFlag = false) (h2 : 2 ≤ p.length) (ic : Bool)
+    (ns : NsMap) (vs : Vars) (skip : Bool)
+    (tag : QName) (attrs : AttrList) (kids : List Node)
+    (hcl : (Node.elem tag attrs kids).clean = true)
+    (hn : AllNodes (NodeFor p ns vs) (.elem tag attrs kids)) :
+    (chooseStrategy (dot :: p) = some .generic ∧ chooseStrategy p = some .simple) ∧
+    traceCaller (pathTest [dot :: p] ic).1 ns vs skip
+        (pathTest [dot :: p] ic).2 (Node.elem tag attrs kids).flatten
+      = traceCaller (pathTest [p] ic).1 ns vs skip
+        (pathTest [p] ic).2 (Node.elem tag attrs kids).flatten := by
+  cases ic with
+  | true => exact self_prefix_default_choice_pattern p hsup hpt h2 ns vs skip tag attrs kids hcl hn
+  | false =>
+    have hne : p ≠ [] := by intro h; rw [h] at h2; simp at h2
+    have hc1 := chooses_generic_dot p hne
+    have hc2 := chooses_simple_of_supports p hsup h2
+    refine ⟨⟨hc1, hc2⟩, ?_⟩
+    have e2 := simple_eq_generic p hsup hpt false ns vs skip tag attrs kids hcl hn
+    have e1 : traceCaller (pathTest [dot :: p] false (some .generic)).1 ns vs skip
+          (pathTest [dot :: p] false (some .generic)).2 (Node.elem tag attrs kids).flatten
+        = traceCaller (pathTest [p] false (some .generic)).1 ns vs skip
+          (pathTest [p] false (some .generic)).2 (Node.elem tag attrs kids).flatten := by
+      rcases supports_cases p hsup hpt with ⟨hp, _⟩ | ⟨q, a, rfl, hq, hqne, ha⟩
+      · exact self_prefix_irrelevant_nonpositional p ns vs (Frags.stepsOk_of_sstep ns vs p hp hne) tag attrs kids
+          hcl hn skip
+      · refine self_prefix_irrelevant_attr q a ha ns vs (Frags.stepsOk_of_sstep ns vs q hq hqne) tag attrs kids hcl
+          ?_ skip
+        refine AllNodes.imp (fun n h => ?_) _ hn
+        obtain ⟨h1, h2', h3, h4⟩ := h
+        exact ⟨h1, h2', h3, fun s hs => h4 s (List.mem_append_left _ hs)⟩
+    simp only [pathTest, List.map_cons, List.map_nil, hc1, hc2, Option.getD_some] at e1 e2 ⊢
+    rw [e1, e2]
 
 end Genshi.Props.C17
